@@ -370,6 +370,16 @@ pub fn c10_script(r: &mut Rng, _index: u64, _tier: Tier) -> (CaseCfg, Vec<Step>)
         s.push(Step::Publish(PubSpec { topic: "k".into(), payload: PayloadSpec::Fill { len: cfg.tx - leave - 9, tag: 0xF11, ascii: false }, qos: 1, retain: false, props: vec![], correlate: None, cancel_at: None }));
         s.push(Step::Disconnect(DiscSpec { reason: Some(0), props: Some(vec![Prop::ReasonString("bye for now".into())]), cancel_at: None }));
     }
+    // one case in five: the broker's QoS 1/2 PUBLISH is handed to the application (its
+    // acknowledgement is owed and still queued), and the application only comes back when the
+    // keep-alive probe is due as well: acknowledgement and PINGREQ go out in one pass, and the
+    // keep-alive goes on from there
+    if eff > 0 && !tiny_mps && r.chance(1, 5) {
+        let q = 1 + r.below(2) as u8;
+        s.push(Step::Broker(BrokerAct::Send(SPacket::Publish { dup: false, qos: q, retain: false, topic: "in/owed".into(), pid: Some(700), props: vec![], payload: vec![7] })));
+        s.push(if use_recv { Step::Recv { max_wait: 1000, cancel_at: None } } else { Step::Poll { max_wait: 1000, cancel_at: None } });
+        s.push(Step::Advance(interval.saturating_sub(1000) + *r.pick(&[0u64, 1, 1000, 500_000])));
+    }
     for i in 0..r.range(4, 10) {
         let wait = match r.below(9) {
             0 => interval.saturating_sub(1),
@@ -804,7 +814,28 @@ pub fn ping_between_pieces_script(r: &mut Rng, _index: u64, _tier: Tier) -> (Cas
     // the transport takes a few bytes per write and is busy for most of the ping interval after
     // the first partial write of an operation
     let policy = IoPolicy { write: *r.pick(&[Chunk::Fixed(4), Chunk::Fixed(8), Chunk::One]), slow_write_us: eff - lead - *r.pick(&[1u64, 1000, 100_000]), ..IoPolicy::default() };
-    let mut s = vec![Step::Connect(ConnectSpec { policy, faults: vec![], connack: ConnackSpec::ok(SpMode::Force(false)), broker: BrokerPolicy::default(), cancel_at: None })];
+    // half of the time the same happens to a *retransmission*: the requests stay unacknowledged on a
+    // first, ordinary connection, and it is the resumed connection that takes them in pieces
+    let on_replay = r.chance(1, 2);
+    let mut s = vec![];
+    if on_replay {
+        s.push(Step::Connect(ConnectSpec { policy: IoPolicy::default(), faults: vec![], connack: ConnackSpec::ok(SpMode::Force(false)), broker: BrokerPolicy { acks: AckMode::Hold, ping: AckMode::Immediate, fail_pct: 0, longform_pct: 0 }, cancel_at: None }));
+        for k in 0..r.range(1, 3) {
+            s.push(match r.below(4) {
+                0 | 1 => pubq(1, "pieces/r", 60 + k as u32, r.range(8, 40)),
+                2 => pubq(2, "pieces/s", 70 + k as u32, r.range(8, 40)),
+                _ => Step::Subscribe(SubSpec { filters: vec![FilterSpec { filter: "pieces/replayed/#".into(), max_qos: 1, no_local: false, rap: false, rh: 0 }], props: vec![], cancel_at: None }),
+            });
+        }
+        s.push(Step::DropConn);
+        s.push(Step::Connect(ConnectSpec { policy: policy.clone(), faults: vec![], connack: ConnackSpec::ok(SpMode::Force(true)), broker: BrokerPolicy::default(), cancel_at: None }));
+        s.push(Step::Advance(*r.pick(&[1u64, 1000, 200_000])));
+        for _ in 0..4 {
+            s.push(Step::Poll { max_wait: eff, cancel_at: None });
+        }
+    } else {
+        s.push(Step::Connect(ConnectSpec { policy, faults: vec![], connack: ConnackSpec::ok(SpMode::Force(false)), broker: BrokerPolicy::default(), cancel_at: None }));
+    }
     // a little time passes first, so that the pause inside the packet carries the clock past the deadline
     s.push(Step::Advance(*r.pick(&[1u64, 1000, 200_000])));
     for k in 0..r.range(1, 3) {
@@ -981,7 +1012,10 @@ pub fn c07_flush_fault_script(r: &mut Rng, _index: u64, _tier: Tier) -> (CaseCfg
 pub fn c06_flush_fault_script(r: &mut Rng, _index: u64, _tier: Tier) -> (CaseCfg, Vec<Step>) {
     let cfg = CaseCfg { rx: 128, tx: 2048, keepalive: 0, ..CaseCfg::default() };
     let rm = *r.pick(&[1u16, 2, 3, 5]);
-    let mut s = vec![connect_with(SpMode::Force(false), AckMode::Hold, vec![Prop::ReceiveMaximum(rm)])];
+    // (half of the time the broker of the first connection answers at once: its PUBREC for the
+    // PUBLISH whose flush fails is sent - and lost with the connection -, so that the exchange is
+    // open at the broker and counts against the window of the resumed connection)
+    let mut s = vec![connect_with(SpMode::Force(false), if r.chance(1, 2) { AckMode::Immediate } else { AckMode::Hold }, vec![Prop::ReceiveMaximum(rm)])];
     let before = r.below(rm as usize);
     for k in 0..before {
         s.push(pubq(1 + r.below(2) as u8, "w", k as u32, 3));
@@ -1311,5 +1345,61 @@ pub fn disconnect_asked_again_script(r: &mut Rng, _index: u64, _tier: Tier) -> (
     for _ in 0..4 {
         s.push(poll0());
     }
+    (cfg, s)
+}
+
+fn rl_bytes(rl: usize) -> usize {
+    match rl {
+        0..=127 => 1,
+        128..=16_383 => 2,
+        16_384..=2_097_151 => 3,
+        _ => 4,
+    }
+}
+
+/// C14: a request whose packet is exactly `limit - 2 .. limit + 2` bytes long, for every broker
+/// limit from 8 to 300 bytes and for the limits around the places where the Remaining Length
+/// grows by a byte (128 + 2, 16 384 + 3, 2 097 152 + 4): QoS 0/1/2 publish, SUBSCRIBE,
+/// UNSUBSCRIBE.  What fits goes out, what does not is refused without a trace, and a small
+/// request made afterwards on the same connection is served.
+pub fn around_every_limit_script(r: &mut Rng, index: u64, _tier: Tier) -> (CaseCfg, Vec<Step>) {
+    let big = index % 16 == 15;
+    let limit: usize = if big {
+        *r.pick(&[16_385usize, 16_386, 16_387, 16_388, 16_389, 2_097_154, 2_097_155, 2_097_156, 2_097_157, 2_097_158])
+    } else if r.chance(1, 3) {
+        *r.pick(&[127usize, 128, 129, 130, 131, 132, 133])
+    } else {
+        8 + r.below(293)
+    };
+    let cfg = CaseCfg { rx: 128, tx: if limit > 100_000 { 2_200_000 } else if limit > 1000 { 40_000 } else { 2048 }, keepalive: 0, ..CaseCfg::default() };
+    let target = limit + r.below(5) - 2;
+    // total = 1 + rl_bytes(RL) + RL
+    let rl_for = |total: usize| -> Option<usize> { (0..=4).map(|n| total.saturating_sub(1 + n)).find(|rl| 1 + rl_bytes(*rl) + rl == total) };
+    let mut s = vec![connect_with(SpMode::Force(false), AckMode::Immediate, vec![Prop::MaximumPacketSize(limit as u32)])];
+    if let Some(rl) = rl_for(target) {
+        let kind = r.below(5);
+        let req = match kind {
+            0 | 1 | 2 => {
+                let qos = kind as u8;
+                let fixed = 2 + 1 + if qos > 0 { 2 } else { 0 } + 1;
+                if rl < fixed { None } else { Some(Step::Publish(PubSpec { topic: "t".into(), payload: PayloadSpec::Fill { len: rl - fixed, tag: 0xE14, ascii: false }, qos, retain: false, props: vec![], correlate: None, cancel_at: None })) }
+            }
+            3 => {
+                if rl < 2 + 1 + 2 + 1 + 1 || rl - 6 > 65_535 { None } else { Some(Step::Subscribe(SubSpec { filters: vec![FilterSpec { filter: "f".repeat(rl - 6), max_qos: 1, no_local: false, rap: false, rh: 0 }], props: vec![], cancel_at: None })) }
+            }
+            _ => {
+                if rl < 2 + 1 + 2 + 1 || rl - 5 > 65_535 { None } else { Some(Step::Unsubscribe(UnsubSpec { filters: vec!["u".repeat(rl - 5)], props: vec![], cancel_at: None })) }
+            }
+        };
+        if let Some(req) = req {
+            s.push(req);
+            s.push(poll0());
+        }
+    }
+    // the connection goes on serving what fits
+    s.push(pubq(1, "k", 0xE15, 0));
+    s.push(poll0());
+    s.push(poll0());
+    s.push(Step::Disconnect(DiscSpec { reason: None, props: None, cancel_at: None }));
     (cfg, s)
 }
